@@ -106,7 +106,7 @@ def parts(tier):
         Part("mixed", "hyp", strategy=gen_mixed(), n=200000 if big else 10000),
         Part("num", "hyp", strategy=gen_num(), n=200000 if big else 10000),
         Part("same", "hyp", strategy=gen_same(), n=400000 if big else 20000),
-        Part("universe", "hyp", strategy=universe.gen_linear_case(n_max=3).filter(lambda c: len(c["picks"]) == 3),
+        Part("universe", "hyp", strategy=universe.gen_linear_case(n_max=3, max_steps=16 if big else 9).filter(lambda c: len(c["picks"]) == 3),
              n=100000 if big else 5000, chunk=1500),
     ]
 
